@@ -236,6 +236,7 @@ def check_files(case_files, layout='one', reindex=True):
         index_object = LogicalFile.LogicalIndex(io.BytesIO(data))
         with index_object as idx:
             got = [[(pe.eflr.lr_type, observed_table(pe.eflr)) for pe in lf.eflrs] for lf in idx.logical_files]
+            kept = idx.logical_files
             # presenting a table (as the scan tools print it, rows sorted by name and in file order) is a query: the table read
             # afterwards - by position, by label, by name - is the table read before
             from TotalDepth.RP66V1.core import stringify
@@ -250,6 +251,15 @@ def check_files(case_files, layout='one', reindex=True):
             if shown != got:
                 return [({'kind': 'table_changed_by_rendering'}, 'after table_as_strings(sort=True / False) the tables read differently: %r before, %r after'
                          % ([t for f in got for t in f if t not in [u for g in shown for u in g]][:1], [t for f in shown for t in f if t not in [u for g in got for u in g]][:1]))], ('render',)
+        # the logical files taken from the open index are plain in-memory tables: a caller that keeps them reads them after the
+        # index is closed as before
+        try:
+            after = [[(pe.eflr.lr_type, observed_table(pe.eflr)) for pe in lf.eflrs] for lf in kept]
+        except Exception as err:  # noqa
+            after = '%s: %s' % (type(err).__name__, err)
+        if after != got:
+            return [({'kind': 'logical_files_change_when_the_index_closes'}, 'the logical files kept from the open index read %s after it is closed, %d logical files before'
+                     % (('%d logical files' % len(after)) if isinstance(after, list) else after, len(got)))], ('closed',)
         if reindex:
             # indexing again through the same object (enter, leave, enter) must give the same logical files
             with index_object as idx:
